@@ -1,5 +1,5 @@
 import contextlib
-from collections.abc import Mapping
+from collections.abc import Iterable, Mapping
 from dataclasses import replace
 from string import Template
 from typing import Any, Callable, NamedTuple
@@ -119,6 +119,21 @@ class BuiltinModelDumperGen(ModelDumperGen):
         )
         self._id_to_field: dict[str, OutputField] = {field.id: field for field in self._shape.fields}
         self._model_identity = model_identity
+        # sieves judge the raw field value, so the fields under a sieve keep it besides the dumped one
+        self._sieved_fields = frozenset(self._collect_sieved_fields(self._name_layout.crown))
+
+    def _collect_sieved_fields(self, crown: OutCrown) -> Iterable[str]:
+        if isinstance(crown, OutDictCrown):
+            for key, sub_crown in crown.map.items():
+                if key in crown.sieves and isinstance(sub_crown, OutFieldCrown):
+                    yield sub_crown.id
+                yield from self._collect_sieved_fields(sub_crown)
+        elif isinstance(crown, OutListCrown):
+            for sub_crown in crown.map:
+                yield from self._collect_sieved_fields(sub_crown)
+
+    def _has_raw_field(self, field: OutputField) -> bool:
+        return field.id in self._sieved_fields and self._fields_dumpers[field.id] != as_is_stub
 
     def produce_code(self, closure_name: str) -> tuple[str, Mapping[str, object]]:
         body_builder = CodeBuilder()
@@ -230,6 +245,8 @@ class BuiltinModelDumperGen(ModelDumperGen):
             on_access_ok_stmt = Template(on_access_ok).substitute(expr=raw_access_expr)
         else:
             dumper = self._v_dumper(field)
+            if self._has_raw_field(field):
+                raw_access_expr = f"({self._v_raw_field(field)} := {raw_access_expr})"
             on_access_ok_stmt = Template(on_access_ok).substitute(expr=f"{dumper}({raw_access_expr})")
 
         if self._debug_trail == DebugTrail.ALL:
@@ -575,6 +592,7 @@ class BuiltinModelDumperGen(ModelDumperGen):
                     self._gen_dict_sieved_append(
                         state, crown.sieves[key], key,
                         element_expr=ElementExpr("value", can_inline=True),
+                        sub_crown=sub_crown,
                     )
                 else:
                     state.builder(f"{state.v_crown}[{key!r}] = value")
@@ -582,6 +600,7 @@ class BuiltinModelDumperGen(ModelDumperGen):
             element_expr = self._get_element_expr(state, key, sub_crown)
             self._gen_dict_sieved_append(
                 state, crown.sieves[key], key, element_expr,
+                sub_crown=sub_crown,
             )
 
     def _gen_dict_sieved_append(
@@ -590,8 +609,12 @@ class BuiltinModelDumperGen(ModelDumperGen):
         sieve: Sieve,
         key: str,
         element_expr: ElementExpr,
+        sub_crown: OutCrown,
     ):
-        condition = self._get_sieve_condition(state, sieve, key, element_expr.expr)
+        sieve_input_expr = element_expr.expr
+        if isinstance(sub_crown, OutFieldCrown) and self._has_raw_field(self._id_to_field[sub_crown.id]):
+            sieve_input_expr = self._v_raw_field(self._id_to_field[sub_crown.id])
+        condition = self._get_sieve_condition(state, sieve, key, sieve_input_expr)
         if element_expr.can_inline:
             state.builder += f"""
                 if {condition}:
